@@ -102,6 +102,9 @@ def run(ctx):
                      'on the spec class of that kind, or the default table guarantees the guard that '
                      'precedes the read (every SpecialsTextSpec has a non-empty replacement, since '
                      'the fall-through reads .discard, which that class does not define)', 9)
+    ctx.rule('R07i', 'the lookup tables cached on a parsing state are reused from the parent only when no '
+                     'field they depend on changed (C17 P2/P4): with a stale table, math inside a math '
+                     'environment makes the tokenizer raise TypeError, which tolerant parsing does not catch', 4)
     ctx.rule('R07h', 'every ParsedArguments (ParsedMacroArgs) object is built with both its '
                      'specification list and its argument-node list, or with neither: the legacy '
                      'nodeoptarg/nodeargs view, which latex2text reads, indexes the node list by the '
@@ -326,6 +329,9 @@ def run(ctx):
 
     # ------------------------------------------------------------ R07h
     _parsed_arguments_coherence(ctx, repo)
+    # ------------------------------------------------------------ R07i (shared with C17 / C05 R05f)
+    from . import c17, c05
+    c17.run(c05._filtered(c05._Sub(ctx, 'R07i'), ('P2', 'P4')))
 
     # ------------------------------------------------------------ R07e
     spec_attrs = {}
